@@ -282,6 +282,8 @@ fn pat_json(p: &syn::Pat) -> Value {
         syn::Pat::Struct(s) => json!({"k":"struct","path":toks(&s.path).replace(' ', ""),
             "fields": s.fields.iter().map(|f| json!({"member":toks(&f.member),"pat":pat_json(&f.pat)})).collect::<Vec<_>>(),
             "span":span}),
+        syn::Pat::Range(r) => json!({"k":"range","lo":r.start.as_ref().map(|x| toks(&**x)),"hi":r.end.as_ref().map(|x| toks(&**x)),
+            "closed": matches!(r.limits, syn::RangeLimits::Closed(_)),"span":span}),
         syn::Pat::Or(o) => json!({"k":"or","cases":o.cases.iter().map(pat_json).collect::<Vec<_>>(),"span":span}),
         other => json!({"k":"other","text":toks(other),"span":span}),
     }
